@@ -20,7 +20,7 @@ from mtsa.report import AnalysisError, Ctx
 from . import anno_model as AM
 from . import codec_model as CM
 from . import sig_model as SM
-from .anno_model import ST, TY, Unresolved, equal_types, eval_annotation, fwd, newtype, uniontype
+from .anno_model import ST, TY, Unresolved, equal_types, eval_annotation, fwd, newtype, pep585, uniontype
 from .codec_model import ANY, INT, NONE_T, STR, alias, anon_td, cls, gen
 from .render_model import fkind
 
@@ -51,7 +51,7 @@ def world() -> Dict[Tuple[str, str], R]:
     for m, q in [(MOD, "User"), (MOD, "Outer"), (MOD, "Outer.Inner"), (MOD, "NoneTypeHolder"), ("utils", "A"), ("my.utils", "B"), ("my.utils", "A"),
                  ("foo", "Baz"), ("barfoo", "Qux"), ("mytyping", "X"), ("pkg.other", "Thing"), ("pkg.other", "Outer"), ("pkg.other", "Outer.Deep"), ("pkg.other", "Outer.Deep.Deeper"), (MOD, "Outer.Inner.Core"),
                  ("_io", "StringIO"), ("pkg", "mod"), ("collections", "OrderedDict"), ("pkg.other", "List"), (MOD, "Set"), ("pkg.other", "Union"),
-                 ("pkg.other", "Movie"), ("pkg.other", "UserId"), ("ui", "Window"), ("ins", "Policy"), ("ledger", "ledger"), ("ledger", "ledger.Entry"), ("foo", "Inner"), ("barmod", "foo"), ("barmod", "foo.Inner")]:
+                 ("pkg.other", "Movie"), ("pkg.other", "UserId"), ("ui", "Window"), ("ins", "Policy"), ("ledger", "ledger"), ("ledger", "ledger.Entry"), ("foo", "Inner"), ("barmod", "foo"), ("barmod", "foo.Inner"), ("collections.abc", "Sequence")]:
         add(cls(m, q))
     w[("io", "StringIO")] = w[("_io", "StringIO")]
     return w
@@ -101,6 +101,8 @@ def universe() -> List[Tuple[str, V]]:
         ("List[NewType of another module]", gen("List", newtype("UserId", "pkg.other", INT))),
         ("`int | <class of another module>` (PEP 604, a source annotation)", uniontype(INT, Th)), ("`<own class> | None` (PEP 604)", uniontype(U_, NONE_T)),
         ("`<own class> | <class of another module>` (PEP 604)", uniontype(U_, Th)),
+        ("`list[<class of another module>]` (PEP 585, a source annotation)", pep585(cls("builtins", "list"), Th)), ("`dict[str, <own class>]` (PEP 585)", pep585(cls("builtins", "dict"), STR, U_)),
+        ("`collections.abc.Sequence[<class of another module>]` (PEP 585)", pep585(C("collections.abc", "Sequence"), Th)), ("`tuple[<own class>, ...]` (PEP 585)", pep585(cls("builtins", "tuple"), U_, K(Ellipsis))),
         # classes that say they live in `builtins` but are not names of the builtins module (the class of a module object, of
         # NotImplemented, of a class's __dict__ proxy, of dict.keys()): get_type records them for such values
         ("class of a module object (builtins.module)", cls("builtins", "module")), ("class of NotImplemented", cls("builtins", "NotImplementedType")),
@@ -120,7 +122,8 @@ def parse_stub(text: str) -> Tuple[Dict[str, Any], Dict[str, Dict[str, str]], Di
     """namespace from the import block (+ builtins + own classes), class stubs {name: {field: annotation text}},
     functions {name: {position: annotation text}}, unresolved imports."""
     tree = ast.parse(text)
-    ns: Dict[str, Any] = {"int": INT, "str": STR, "None": NONE_T, "bool": cls("builtins", "bool"), "float": cls("builtins", "float"), "bytes": cls("builtins", "bytes")}
+    ns: Dict[str, Any] = {"int": INT, "str": STR, "None": NONE_T, "bool": cls("builtins", "bool"), "float": cls("builtins", "float"), "bytes": cls("builtins", "bytes"),
+                          "list": cls("builtins", "list"), "dict": cls("builtins", "dict"), "tuple": cls("builtins", "tuple"), "set": cls("builtins", "set"), "frozenset": cls("builtins", "frozenset"), "type": cls("builtins", "type")}
     for (m, q), c in W.items():
         if m == MOD and "." not in q:
             ns[q] = c
